@@ -1832,15 +1832,25 @@ def table_theorems(run, tab, sweep_findings):
     good_labels = sorted(k.split(":")[1] for k, v in tri.items() if v)
     thms = []
     nm = lambda xs: clist([cstr(x) for x in xs])
-    # per labelled class: the constructor has the standard shape (a universally quantified fact about the model)
+    # per labelled class: its label resolves to the class and the constructor takes (controls, targets,
+    # parameters) in the order the writer prints them -- universally quantified facts about the model
     for n in good_labels:
-        r = rows[n]
-        if any(k == "FVar" for _, k, _ in r["formals"]):
-            thms.append((f"label_class_{n}", f"star_row row_{n} /\\ label_resolves rows specials row_{n}", "split; [eexists; repeat split; reflexivity | vm_compute; reflexivity]."))
-        else:
-            nq = len(r["targets"]) + len(r["controls"])
-            thms.append((f"label_class_{n}", f"std_ctor bases row_{n} {len(r['controls'])} {nq} {len(r['params'])} /\\ label_resolves rows specials row_{n}",
-                         "split; [std_ctor_tac | vm_compute; reflexivity]."))
+        thms.append((f"label_class_{n}", f"class_fact rows bases specials row_{n}", "class_fact_tac."))
+    script = ["intros r Hin H."]
+    for n in sorted(rows):
+        script.append("destruct Hin as [<-|Hin]. { " + (f"exact label_class_{n}." if n in good_labels else "vm_compute in H; discriminate H.") + " }")
+    script.append("destruct Hin.")
+    thms.append(("tables_M_ok", "M_tables_ok rows bases rotation",
+                 "split; [exists row_M; repeat split; reflexivity | split; [reflexivity | intro q; reflexivity]]."))
+    thms.append(("all_class_facts", "forall r, In r rows -> label_row_ok rows specials r = true -> class_fact rows bases specials r",
+                 "\n  ".join(script)))
+    thms.append(("qasm_roundtrip_generated_tables",
+                 "forall c mt s, qasm_exportable rows specials c mt -> write' c = OK s -> "
+                 "exists c' gs', read' s = OK c' /\\ cn c' = cn c /\\ cqueue c' = (gs' ++ map MG mt)%list "
+                 "/\\ cmeas c' = seq (length gs') (length mt) "
+                 "/\\ Forall2 gate_equiv (filter nonM (cqueue c)) gs' /\\ Forall (fun g => is_M g = false) gs' "
+                 "/\\ measurement_tuples c' = measurement_tuples c",
+                 "exact (qasm_roundtrip_checked rows bases specials rotation tables_M_ok all_class_facts)."))
     thms.append(("name_table_ok_partial",
                  f"forallb (fun r => match rlabel r with None => true | Some _ => label_row_ok rows specials r || mem_str (rname r) {nm(bad_labels)} end) rows = true",
                  "vm_compute; reflexivity."))
